@@ -15,8 +15,10 @@ SWEEPSIM_STUB = {
     "sweep.Wallet": "simulator: mempool model of a full node (relay floor, inputs already spent on chain, BIP-125 rules 3+4) or neutrino (no testmempoolaccept) or an old backend (ErrBackendVersion); injected verdicts from the tape on top; wallet coins are private per request (no coin contention)",
     "chainfee.Estimator": "simulator: fixed relay floor per run; EstimateFeePerKW is a pure function of (block salt, conf target) with injected errors / below-floor / zero / huge answers",
     "chainntnfs.ChainNotifier (spend notifications), chainio.Blockbeat delivery (sweeper first, then publisher)": "simulator",
-    "sweep.SweeperStore": "in-memory map (not part of C18)",
-    "chainntnfs.MempoolWatcher (RBFInfo of a restart), AuxSweeper, CPFP parents, UpdateParams/BumpFee re-offers": "not simulated",
+    "sweep.SweeperStore": "in-memory map owned by the simulated world: it survives the simulated restarts (TxRecord{FeeRate,Fee} per published sweep is all lnd persists about a pending sweep)",
+    "chainntnfs.MempoolWatcher": "simulator: LookupInputMempoolSpend answers from the simulated mempool when the backend is a full node, fn.None on neutrino / an old btcd (no mempool, no gettxspendingprevout); the subscription half is inert (unused by the sweeper)",
+    "process restart": "simulator: at a quiescent point UtxoSweeper.Stop + TxPublisher.Stop, everything lnd held in memory is dropped (fresh sweep.New / NewTxPublisher over the same world), chain, mempool, wallet coins and sweeper store stay; every unresolved input is offered again with the sweep.Params of its first offer, in index order, each to quiescence (what contract resolvers do on startup)",
+    "AuxSweeper, CPFP parents, UpdateParams/BumpFee re-offers": "not simulated",
 }
 SWEEPSIM_ASSUME = [
     "configuration inside what lncfg.Sweeper.Validate accepts: MaxFeeRate 100..10000 sat/vb, NoDeadlineConfTarget >= 144; relay floor 253..3000 sat/kw, fixed per run",
@@ -32,12 +34,15 @@ CHECK = {
         bin="run_sweepsim", build="gotest", pkg="run_sweepsim", level="exploration",
         quick=dict(runs=3000, wall=75), thorough=dict(runs=30000, wall=1000),
         gomaxprocs=2,
-        rule="one evaluation = one seeded history. Arms: (a) sweeper/fault-free and (b) sweeper/faulty: 20-50 steps (x2 in thorough) of offering inputs of 8 witness kinds to the real UtxoSweeper (values, budgets incl. near-floor and above-value, deadlines from passed to >1008 blocks, optional starting rate, immediate flag, exclusive anchors), wallet coins, block beats (single, skipped heights up to +450, jumps to 1-3 blocks before a live request's deadline) with own-version confirmations (latest or earlier) and, in (b), third-party spends, estimator faults and wallet verdicts; followed by a fault-free wind-down that walks every live request to one block before its deadline. Every transaction handed to CheckMempoolAcceptance/PublishTransaction, every BumpRequest and every BumpResult is judged. (c) fee-function: the real LinearFeeFunction driven through 10-50 calls (IncreaseFeeRate with shrinking / skipped / stale conf targets, Increment) plus a final IncreaseFeeRate(1), FeeRate() judged after every call. non-trivial = (a,b) at least one request was judged at its deadline and at least one fee bump across blocks happened (b: and an injected fault fired) / (c) at least two increases and the ceiling reached; distinct = distinct event-trace hash",
+        rule="one evaluation = one seeded history. Arms: (a) sweeper/fault-free and (b) sweeper/faulty: 20-50 steps (x2 in thorough) of offering inputs of 8 witness kinds to the real UtxoSweeper (values, budgets incl. near-floor and above-value, deadlines from passed to >1008 blocks, optional starting rate, immediate flag, exclusive anchors), wallet coins, block beats (single, skipped heights up to +450, jumps to 1-3 blocks before a live request's deadline) with own-version confirmations (latest or earlier) and, in (b), third-party spends, estimator faults and wallet verdicts; in half of the runs of (a) and (b) also up to 3 restarts (sweeper and publisher stopped and rebuilt over the same chain/mempool/store, unresolved inputs offered again; sweeps published before a restart can still confirm afterwards); followed by a fault-free wind-down that walks every live request to one block before its deadline. Every transaction handed to CheckMempoolAcceptance/PublishTransaction, every BumpRequest and every BumpResult is judged. (c) fee-function: the real LinearFeeFunction driven through 10-50 calls (IncreaseFeeRate with shrinking / skipped / stale conf targets, Increment) plus a final IncreaseFeeRate(1), FeeRate() judged after every call. non-trivial = (a,b) at least one request was judged at its deadline and at least one fee bump across blocks happened (b: and an injected fault fired; a restart counts as one) / (c) at least two increases and the ceiling reached; distinct = distinct event-trace hash",
         states_measure="distinct (live requests, offered inputs, mempool size, wallet coins) tuples / (log2 conf target, at-ceiling) for the fee-function arm",
         expected_probes=["probe_ramped_to_ceiling", "probe_feefn_reached_ceiling", "probe_attempt_below_floor",
                          "fault_third_party_spend", "fault_confirm_earlier_version", "fault_estimator_error",
                          "fault_check_insufficient_fee", "fault_publish_generic", "ceiling_checks", "fee_bumps",
-                         "blocks_skipping_heights"],
+                         "blocks_skipping_heights", "fault_restart", "probe_restart_with_own_sweep_in_mempool",
+                         "probe_restart_rbf_info_restored", "probe_restart_without_mempool_lookup",
+                         "probe_restart_ceiling_below_reached_rate", "probe_confirm_pre_restart_sweep",
+                         "restart_start_rate_checks", "restart_tx_rate_checks"],
         real_vs_stub=SWEEPSIM_STUB, assumptions=SWEEPSIM_ASSUME,
         simulated_time="block heights only (the sweeper has no timers); 1 beat = 1..450 blocks",
         determinism="actor engine inside testing/synctest, one stimulus at a time to quiescence; stub answers are pure functions of (block salt, request identity, per-request call number) and the trace is written in canonical request order, so lnd's goroutine/map-iteration order does not reach the trace. Self-test: 3 batch seeds x 400 runs x 2 processes x GOMAXPROCS {1,16}: 0 differing traces",
@@ -45,13 +50,13 @@ CHECK = {
 }
 
 ENGINE = {"name": "sweepsim", "path": "/verif/sim/sweepsim", "serves_properties": ["C18"],
-          "kind_free_text": "real UtxoSweeper + BudgetAggregator + TxPublisher + LinearFeeFunction in a synctest bubble; simulated wallet/mempool, fee estimator, spend notifier and block beats; bump-request tap between sweeper and publisher; separate call-driven fee-function arm"}
+          "kind_free_text": "real UtxoSweeper + BudgetAggregator + TxPublisher + LinearFeeFunction in a synctest bubble; simulated wallet/mempool (incl. mempool lookup), fee estimator, spend notifier, block beats, sweeper store and process restarts; bump-request tap between sweeper and publisher; separate call-driven fee-function arm"}
 
 TEXT = {
     "C18": dict(engine="sweepsim", design_ref="DESIGN.md 5 C18",
                 technique="deterministic simulation with fault injection: seeded histories of inputs, blocks, estimator answers, mempool verdicts and spends around the real sweeper/publisher; per-transaction and per-request oracles at the wallet seam",
-                level_text="Seeded exploration. Every transaction the node hands to the wallet (testmempoolaccept or publish) is judged on its own: fee = inputs - outputs <= sum of the budgets the caller attached to its inputs (exact), fee <= MaxFeeRate x (actual weight + documented witness slack), input set == the bump request's input set, every output >= its script's dust limit, required (SINGLE|ANYONECANPAY) outputs at the index of their input, nothing handed to PublishTransaction below the relay floor. Per request: offered fees and reported fee rates never decrease, reported rates <= MaxFeeRate, request budget <= attached budgets, and at every quiescent point where deadline - height <= 1 the last offered fee of a live request is at the ceiling min(budget, MaxFeeRate x weight) up to integer sat/kw rounding; a request whose start lies within the ceiling must not die of 'not enough budget'. Across requests: a bump request that contains an input of a failed sweep starts no lower than the fee rate that sweep had reached (sweeper contract: the failed result's rate is the next starting rate, a set starts at the MAX over its inputs). The fee-function arm checks monotonicity, the cap, start >= relay floor, the increased-flag and rate == ceiling at conf target <= 1 directly on FeeRate(). Exploration is the right level: histories and integer roundings are unbounded, the oracles are scenario independent.",
-                level_note="Trusted: the simulated mempool policy, the documented size slack, Bitcoin Core default dust limits. Not covered: MempoolWatcher/RBFInfo after a restart, UpdateParams/BumpFee on a published input, AuxSweeper outputs, CPFP parents, taproot/nested wallet coins, wallet-coin contention. Open findings F1-F4 (findings/) are reported as KNOWN-FINDING once merged into known_findings.json; signature-carrying violations are raised at the end of a run so that they do not mask the other oracles."),
+                level_text="Seeded exploration. Every transaction the node hands to the wallet (testmempoolaccept or publish) is judged on its own: fee = inputs - outputs <= sum of the budgets the caller attached to its inputs (exact), fee <= MaxFeeRate x (actual weight + documented witness slack), input set == the bump request's input set, every output >= its script's dust limit, required (SINGLE|ANYONECANPAY) outputs at the index of their input, nothing handed to PublishTransaction below the relay floor. Per request: offered fees and reported fee rates never decrease, reported rates <= MaxFeeRate, request budget <= attached budgets, and at every quiescent point where deadline - height <= 1 the last offered fee of a live request is at the ceiling min(budget, MaxFeeRate x weight) up to integer sat/kw rounding; a request whose start lies within the ceiling must not die of 'not enough budget'. Across requests: a bump request that contains an input of a failed sweep starts no lower than the fee rate that sweep had reached (sweeper contract: the failed result's rate is the next starting rate, a set starts at the MAX over its inputs). Across restarts (backend with mempool lookup only; without one lnd documents that it cannot know, counted as probe): an input offered again while the node's own unconfirmed sweep of it is still in the mempool must come back in a bump request whose StartingFeeRate is no lower than the rate the node had announced (TxPublished/TxReplaced) for exactly that transaction (restart-starts-lower), and, independent of lnd's reports and records, the first transaction of that request pays at least min(fee_old/(weight_old+slack), own ceiling) x its actual weight (restart-fee-rate-decreased; only old sweeps with a change output, whose fee is rate x size). The fee-function arm checks monotonicity, the cap, start >= relay floor, the increased-flag and rate == ceiling at conf target <= 1 directly on FeeRate(). Exploration is the right level: histories and integer roundings are unbounded, the oracles are scenario independent.",
+                level_note="Trusted: the simulated mempool policy, the documented size slack, Bitcoin Core default dust limits. Restarts happen at quiescent points only (no crash between a publish and the store write) and re-offer inputs one by one; an input whose pre-restart sweep was replaced by an earlier re-offer of the same restart (immediate sweep of a co-swept input) is counted (probe_restart_sweep_replaced_before_reoffer), not judged: the mempool no longer shows it. Not covered: UpdateParams/BumpFee on a published input, AuxSweeper outputs, CPFP parents, taproot/nested wallet coins, wallet-coin contention. Open findings F1-F4 (findings/); F5 (findings/F5-*.json: a fee bump whose publish failed left a never-published tx as ReplacedTx of the next TxReplaced, the replacement got no TxRecord and the ramp restarted from the bottom after a restart) was found by the restart arm and is fixed in /repo (9d3b87d), its signature replaced-tx-never-published stays in the oracle are reported as KNOWN-FINDING once merged into known_findings.json; signature-carrying violations are raised at the end of a run so that they do not mask the other oracles."),
 }
 
 # Entries to merge into /verif/known_findings.json (also in findings/known_findings_C18.json):
